@@ -115,6 +115,38 @@ def run(ctx) -> None:
         ctx.fail("R06b", ex.validate, ex.validate.node, f"_validate_control_command: {name} in sys={sysv} paused={pa} holding={ho}",
                  f"user command {name} is {'accepted' if a else 'refused'} in this state although it is "
                  f"{'not ' if a else ''}valid | history: {' > '.join(ex.trace(s))}")
+    # ---- R06d: the same invariant when two user requests are accepted in one inter-tick gap (both validated against the
+    # same state, executed in the order the extracted policy gives) - together with a same-named request from the method
+    # a command can complete within one tick and a request queued behind it runs after the run has ended
+    ctx.rule("R06d", "state invariant with two user requests accepted between two ticks")
+    ex2 = Explorer(ctx, faults=False, track=(), max_pending=2)
+    ex2.explore()
+    ctx.extra["states_two_requests"] = len(ex2.reach)
+    bad2 = {}
+    for s in ex2.reach:
+        d = sd(s)
+        probs = []
+        if d["sys"] not in expected_sys(d):
+            probs.append(f"System State is {d['sys']} but flags started={d['started']} paused={d['paused']} holding={d['holding']} "
+                         f"require {sorted(expected_sys(d))}")
+        if not d["started"] and d["if_Restart"] is None and (d["paused"] or d["holding"] or d["stopping"]):
+            probs.append(f"no run is active but paused={d['paused']} holding={d['holding']} stopping={d['stopping']}")
+        if (d["run_id"] == "set") != d["started"]:
+            probs.append(f"Run Id is {'set' if d['run_id'] else 'empty'} while started={d['started']}")
+        if probs and s not in ex.reach:
+            key = (d["started"], d["paused"], d["holding"], d["sys"], d["run_id"])
+            if key not in bad2:
+                bad2[key] = (s, probs)
+    if not bad2:
+        ctx.ok("R06d", f"invariant holds in all {len(ex2.reach)} states reachable with two requests per tick gap",
+               {"rule": "R06d", "states": len(ex2.reach)})
+    for key, (s, probs) in bad2.items():
+        ctx.fail("R06d", ex2.tick, ex2.tick.node,
+                 f"reachable state (two requests in one tick gap) started={key[0]} paused={key[1]} holding={key[2]} sys={key[3]} run_id={key[4]}",
+                 "; ".join(probs) + f" | shortest history: {' > '.join(ex2.trace(s))} | state: {show(s)}",
+                 function="openpectus.engine.internal_commands_impl (run-state machine)")
+    ctx.obligations += len(ex2.reach)
+    ctx.discharged += len(ex2.reach) - len(bad2)
     ctx.obligations += len(ex.reach) + n_gate
     ctx.discharged += len(ex.reach) + n_gate - len(bad_inv) - len(bad_gate)
     # per-command segment table for the evidence
